@@ -6,12 +6,15 @@
   consumes them clears it), and every condition of the shape `[!]([g &&] pure_data(istr >> x1 … >> xn))` / `!(istr >> x1 … >> xn)`
   (regenerated with the kinds of the extracted variables in Gen/DataParserConds.lean) is evaluated with the stream model of
   Model/PureData.lean.  Oracle bits remain for: `Cond.other` (counters, null pointers, value comparisons, exceptions of the matrix
-  code, `deg2gon`/`IsFloat` tests on the text, everything in `g3_obs_cov` behind `istr >> d >> b`) and the guard conjunct of a
-  `pure` condition (`g3->model != nullptr`, `dim>0 && width<dim`).
+  code, id lookups, the xmlns loop, everything in `g3_obs_cov` behind `istr >> d >> b`) and the guard conjunct of a `pure` condition
+  (`g3->model != nullptr`, `dim>0 && width<dim`).  Round 9: `deg2gon(text_buffer, …)` of `<b>`/`<l>` and the `IsFloat` / `IsInteger`
+  tests of the g3 adjustment results are COMPUTED (`Cond.lit`, recognisers of Model/Literals.lean), and acceptance of a whole
+  document is an IFF (`C11_dp_document_accepted_iff`).
 -/
 import Gama.Lemmas.DataParserValues
 import Gama.Lemmas.PureDataLang
 import Gama.Lemmas.DataParserValuesExamples
+import Gama.Lemmas.DataParserDoc
 namespace Gama.Props.C11
 open Gama Gama.DP Gama.Lit
 
@@ -116,6 +119,52 @@ theorem C11_dp_accepted_fields_in_language_partial (pre post : List CEvent) (o :
     rw [hacc] at this; cases this
   · rfl
 
+/-- DOCUMENT level, BOTH directions.  Every event gets a verdict (`DP.verdict`, Lemmas/DataParserDoc.lean), judged up to the first
+    refusal: `ok`; `struct` = refused by the automaton (unknown / unexpected element, attributes, text between elements, unexpected end
+    tag); `field` = a text read by a stream test `pure_data(istr >> x1 … >> xn)` / `!(istr >> …)` is not in the language of its chain;
+    `computed` = a text read by `deg2gon` / `IsFloat` / `IsInteger` is not in that recogniser's language; `oracle` = a condition that is
+    NOT a function of the document failed (the oracle bits `o` of the events: `g3->model != nullptr`, `dim>0 && width<dim`, point-id
+    and ellipsoid-id lookups, N/E status, the xmlns attribute loop, counters and matrix code of `</obs>`, `</cov-mat>`, the adjustment
+    input).  The document is accepted (no `error()` call, final state `s_stop`) IFF no event is refused for any of the four reasons
+    AND the element sequence, followed through the tables `next` / `after` ALONE (`twalk`: no handler runs), ends in `s_stop`.
+    What the verdicts say for the elements is `C11_dp_field_verdict` / `C11_dp_lit_verdict` below; that the state of a clean run is the
+    table walk is `C11_dp_clean_run_follows_tables`.  The oracle conjunct is explicit, not hidden: for a document whose events carry
+    oracle bits under which every such condition passes, `oracleBitsOk` holds and acceptance is decided by the document alone. -/
+theorem C11_dp_document_accepted_iff (evs : List CEvent) :
+    DP.accepted (crun CSt.init evs) ↔
+      (structureOk CSt.init evs = true ∧ endsInStop CSt.init evs = true) ∧ allFieldsInLanguage CSt.init evs = true ∧
+        computedCondsOk CSt.init evs = true ∧ oracleBitsOk CSt.init evs = true :=
+  document_accepted_iff CSt.init evs rfl
+
+/-- … and without the final state: no `error()` call IFF every judged event is `ok`, from any situation without recorded error -/
+theorem C11_dp_document_clean_iff (cs : CSt) (evs : List CEvent) :
+    (crun cs evs).st.err = none ↔ (cs.st.err = none ∧ ∀ v ∈ verdicts cs evs, v = .ok) := crun_clean_iff evs cs
+
+/-- a run that records no error is, state by state, the walk through the tables `next[state][tag]` / `after[state]`: the handlers
+    move nowhere else (all 325 states × every entry of the row × with/without attributes × end × text, by abstract execution) -/
+theorem C11_dp_clean_run_follows_tables (cs : CSt) (evs : List CEvent) (h : (crun cs evs).st.err = none) :
+    (crun cs evs).st.state = twalk cs.st.state evs := crun_clean_state evs cs h
+
+/-- what the verdict says at the end event of an element read by ONE `pure_data` test (the 19 `isField` handlers), after any prefix
+    without recorded error: `field` iff the pooled text is NOT in the language of the chain, `oracle` iff it is and the guard conjunct
+    fails, `ok` otherwise -/
+theorem C11_dp_field_verdict (pre : List CEvent) (o : List Bool) (chain : List XKind) (g : Guard)
+    (hclean : (crun CSt.init pre).st.err = none)
+    (hh : isField (cEndProg (etag (crun CSt.init pre).st.state)) = some (chain, g)) :
+    verdict (crun CSt.init pre) (.stop o) =
+      if pureOk chain (crun CSt.init pre).buf then (if guardOk g o then .ok else .oracle) else .field :=
+  field_verdict _ o chain g hclean hh
+
+/-- … and at the end event of an element guarded by a recogniser over the whole buffer (`isLitField`: `<b>`, `<l>` with `deg2gon`; the
+    number elements of the g3 adjustment results with `IsFloat` / `IsInteger`): `computed` iff the pooled text is NOT in
+    `Lit.deg2gonAccepts` / `Lit.isFloat` / `Lit.isInteger` (`litOk`) -/
+theorem C11_dp_lit_verdict (pre : List CEvent) (o : List Bool) (k : LitKind)
+    (hclean : (crun CSt.init pre).st.err = none)
+    (hh : isLitField (cEndProg (etag (crun CSt.init pre).st.state)) = some k) :
+    verdict (crun CSt.init pre) (.stop o) =
+      if litOk k (crun CSt.init pre).buf then .ok else .computed :=
+  lit_verdict _ o k hclean hh
+
 /-! ### non-vacuity -/
 
 open Gama.DP.Ex
@@ -160,6 +209,45 @@ example :
       .start .t_apriori_sd true [], .text "1e".toList []]
     (crun CSt.init pre).st.err = none ∧ isField (cEndProg (etag (crun CSt.init pre).st.state)) = some ([.double], .modelNonNull) ∧
     (crun CSt.init pre).buf = " 1e".toList ∧ (crun CSt.init (pre ++ [.stop []])).st.err = some (5, .data) := by decide +kernel
+
+/-- the document theorem on concrete documents.  The 94-event document: all five conjuncts hold, accepted.  One change each:
+    `<dz>1x` ⇒ ONLY `allFieldsInLanguage` fails (71 events judged: 70 `ok`, then `field` at `</vector>`); the guard bit of `</vector>`
+    false ⇒ only `oracleBitsOk` fails; an unknown element after `<g3-model>` ⇒ only `structureOk` fails; the document cut before its
+    last end tag ⇒ every verdict `ok`, only `endsInStop` fails (not accepted, no error recorded) -/
+example :
+    let good := headDoc ++ obsDoc "3e-1" ++ tailDoc
+    let c (evs : List CEvent) := (structureOk CSt.init evs, endsInStop CSt.init evs, allFieldsInLanguage CSt.init evs,
+      computedCondsOk CSt.init evs, oracleBitsOk CSt.init evs)
+    c good = (true, true, true, true, true) ∧ (crun CSt.init good).st.err = none ∧ (crun CSt.init good).st.state = .s_stop ∧
+    c (headDoc ++ obsDoc "1x" ++ tailDoc) = (true, true, false, true, true) ∧
+    verdicts CSt.init (headDoc ++ obsDoc "1x" ++ tailDoc) = List.replicate 70 .ok ++ [.field] ∧
+    c (headDoc ++ obsDoc "3" ++ [.stop [false]] ++ tailDoc.drop 1) = (true, true, true, true, false) ∧
+    (c (headDoc.take 3 ++ [CEvent.start .t_unknown true []] ++ headDoc.drop 3 ++ obsDoc "3" ++ tailDoc)).1 = false ∧
+    c (good.take 93) = (true, false, true, true, true) ∧ (crun CSt.init (good.take 93)).st.err = none := by
+  decide +kernel
+
+/-- `computed`: a g3 point with `<b>` = `50-30-00` is passed, `<b>` = `50-30-00x` (not in the language of `deg2gon`) is refused at
+    `</b>` (event 8) with verdict `computed` and nothing else; the hypotheses of `C11_dp_lit_verdict` are met there; a point id the
+    model does not know (oracle bit of `</id>`) gives verdict `oracle` at event 5 -/
+example :
+    let pt (b : String) (idbit : Bool) : List CEvent :=
+      [.start .t_gama_data false [false], .start .t_g3_model true [], .start .t_point true []] ++ el .t_id "A" [idbit] ++
+        [.start .t_b true [], .text b.toList []]
+    verdicts CSt.init (pt "50-30-00" false ++ [.stop []]) = List.replicate 9 .ok ∧
+    verdicts CSt.init (pt "50-30-00x" false ++ [.stop []]) = List.replicate 8 .ok ++ [.computed] ∧
+    (crun CSt.init (pt "50-30-00x" false ++ [.stop []])).st.err = some (8, .data) ∧
+    (crun CSt.init (pt "50-30-00x" false)).st.err = none ∧
+    isLitField (cEndProg (etag (crun CSt.init (pt "50-30-00x" false)).st.state)) = some .deg2gon ∧
+    litOk .deg2gon (crun CSt.init (pt "50-30-00x" false)).buf = false ∧ litOk .deg2gon " 50-30-00".toList = true ∧
+    verdicts CSt.init (pt "50-30-00" true) = List.replicate 5 .ok ++ [.oracle] := by
+  decide +kernel
+
+/-- the elements guarded by a recogniser on this tree: 2 with `deg2gon` (`<b>`, `<l>`), 50 with `IsFloat`, 8 with `IsInteger` -/
+example :
+    (EndH.all.filter (fun h => isLitField (cEndProg h) == some .deg2gon)).length = 2 ∧
+    (EndH.all.filter (fun h => isLitField (cEndProg h) == some .isFloat)).length = 50 ∧
+    (EndH.all.filter (fun h => isLitField (cEndProg h) == some .isInteger)).length = 8 := by
+  decide +kernel
 
 /-- the field handlers of the current tree (shape recognised by `isField`) -/
 example : (EndH.all.filter (fun h => (isField (cEndProg h)).isSome)).length = 19 := by decide +kernel
